@@ -95,6 +95,21 @@ impl FromStr for CryptPw {
     }
 }
 
+/// A sha256-crypt hash field is 43 characters of the crypt(3) base64 alphabet, the last of
+/// which carries only 4 bits. `sha_crypt::sha256_check` unwraps the decode of that field and
+/// PANICS on anything else (sha-crypt 0.5.0 `decode_sha256`), which would take down the process
+/// that loaded the PAM module, so refuse such values first.
+fn sha256_crypt_hash_field_is_valid(h: &str) -> bool {
+    const TAB: &[u8] = b"./0123456789ABCDEFGHIJKLMNOPQRSTUVWXYZabcdefghijklmnopqrstuvwxyz";
+    let field = h.rsplit('$').next().unwrap_or_default().as_bytes();
+    field.len() == 43
+        && field.iter().all(|c| TAB.contains(c))
+        && field
+            .last()
+            .map(|c| TAB[..16].contains(c))
+            .unwrap_or(false)
+}
+
 impl CryptPw {
     pub fn is_valid(&self) -> bool {
         !matches!(self, CryptPw::Invalid)
@@ -102,7 +117,10 @@ impl CryptPw {
 
     pub fn check_pw(&self, cred: &str) -> bool {
         match &self {
-            CryptPw::Sha256(crypt) => sha_crypt::sha256_check(cred, crypt.as_str()).is_ok(),
+            CryptPw::Sha256(crypt) => {
+                sha256_crypt_hash_field_is_valid(crypt.as_str())
+                    && sha_crypt::sha256_check(cred, crypt.as_str()).is_ok()
+            }
             CryptPw::Sha512(crypt) => sha_crypt::sha512_check(cred, crypt.as_str()).is_ok(),
             CryptPw::YesCrypt(crypt) => {
                 use yescrypt::{PasswordHash, PasswordVerifier, Yescrypt};
